@@ -128,7 +128,7 @@ func ParseLikeValidURL(v string) (UrlFact, *url.URL) {
 		return f, nil
 	}
 	f.Scheme = u.Scheme
-	f.Norm = u.String()
+	f.Norm = strings.TrimSpace(u.String()) // String() drops an empty fragment; white space in front of it is trimmed like the rest
 	f.Empty = f.Norm == ""
 	return f, u
 }
